@@ -81,6 +81,16 @@ def check(case):
         if method_based and evalhelp.outcome_of(res.value) != ref.OUTCOME[expected]:
             fail("outcome", f"{text!r} under {assignment} with method-based evaluators (a second evaluator set for another "
                  f"format is registered too): {evalhelp.outcome_of(res.value)}, expected {ref.OUTCOME[expected]}")  # fmt: skip
+        # entry point 2 with the shipped ContentEvaluationResult based evaluators, the requirement states spelled in
+        # mixed case in the evaluatable data
+        if method_based:
+            evalhelp.setup_for(ast, assignment, style="cer-recased")
+            res = sut.call(api.requirement_constraint_evaluation, text)
+            if not res.ok:
+                fail("evaluation-raises", f"requirement_constraint_evaluation({text!r}) with ContentEvaluationResult based evaluators under {assignment} raised {res!r}")
+            if evalhelp.outcome_of(res.value) != ref.OUTCOME[expected]:
+                fail("outcome", f"{text!r} under {assignment} with ContentEvaluationResult based evaluators (states spelled in mixed "
+                     f"case in the evaluatable data): {evalhelp.outcome_of(res.value)}, expected {ref.OUTCOME[expected]}")  # fmt: skip
         # entry point 2 again, this time given the already parsed tree
         evalhelp.setup_for(ast, assignment)
         res = sut.call(api.requirement_constraint_evaluation, shared_tree_2)
